@@ -22,7 +22,38 @@ fn build(a: u8, d: u8, sa: bool, sd: bool) -> Joypad {
   j
 }
 
-pub fn run(_sub: &str, _opts: &Opts, w: &mut dyn Write) {
+fn apply(j: &mut Joypad, op: char, arg: u8) {
+  match op {
+    'p' => j.press_button(button(arg as usize)),
+    'r' => j.release_button(button(arg as usize)),
+    _ => j.set_value(arg),
+  }
+}
+
+/// all pairs of actions from every state, with the interrupt collected only AFTER both (a request must survive a later
+/// action that causes no edge): c17.seq a= d= sa= sd= op= arg= op2= arg2= | v1= v2= i1= i2=
+fn run_seq(w: &mut dyn Write) {
+  let mut ops: Vec<(char, u8)> = Vec::new();
+  for k in 0..8 { ops.push(('p', k)); }
+  for k in 0..8 { ops.push(('r', k)); }
+  for v in [0x00u8, 0x10, 0x20, 0x30] { ops.push(('s', v)); }
+  for a in 0..16u8 { for d in 0..16u8 { for sa in 0..2 { for sd in 0..2 {
+    for &(op, arg) in ops.iter() { for &(op2, arg2) in ops.iter() {
+      let mut j = build(a, d, sa == 1, sd == 1);
+      apply(&mut j, op, arg);
+      let v1 = j.get_value();
+      apply(&mut j, op2, arg2);
+      let v2 = j.get_value();
+      let i1 = j.get_interrupt() == InterruptFlag::joypad();
+      let i2 = j.get_interrupt() == InterruptFlag::joypad();
+      writeln!(w, "c17.seq a={} d={} sa={} sd={} op={} arg={} op2={} arg2={} | v1={} v2={} i1={} i2={}",
+        a, d, sa, sd, op, arg, op2, arg2, v1, v2, i1 as u8, i2 as u8).unwrap();
+    }}
+  }}}}
+}
+
+pub fn run(sub: &str, _opts: &Opts, w: &mut dyn Write) {
+  if sub == "seq" { return run_seq(w); }
   for a in 0..16u8 { for d in 0..16u8 { for sa in 0..2 { for sd in 0..2 {
     let mut ops: Vec<(char, u8)> = Vec::new();
     for k in 0..8 { ops.push(('p', k)); }
